@@ -382,6 +382,18 @@ def corpus() -> list[dict]:
     out.append({"id": "C07-D4", "with_cond": False, "rules": [dict(base, name="r1", guard=False, family="passthru",
                 pnodes=[("Neg", "", [("v", 0)], 1, []), ("Neg", "", [("n", 0, 0)], 1, [])], root=1, pouts=[("n", 1, 0)], tnodes=[], touts=[("v", 0)])],
                 "host": host([N("Neg", ["x"], ["n"]), N("Neg", ["n"], ["m"]), N("Add", ["m", "x"], ["z"])], ["x"], ["z"])})
+    # directed (no finding): an as_function rule that fires only inside a function body and brings a new domain —
+    # the main graph must import it (`_update_opset_imports(model.graph, ...)`)
+    fbody = [N("Relu", ["a"], ["t"]), N("Neg", ["t"], ["b"])]
+    fproto = helper.make_function("local", "f", ["a"], ["b"], fbody, [helper.make_opsetid("", 18)])
+    out.append({"with_cond": False, "rules": [dict(base, name="r1", family="asfn", asfn=True, pnodes=[("Relu", "", [("v", 0)], 1, [])], root=0,
+                pouts=[("n", 0, 0)], tnodes=[("NR", "local2", None, [("v", 0)], 1, [])], touts=[("n", 0, 0)])],
+                "host": host([N("f", ["x"], ["r"], domain="local"), N("Abs", ["r"], ["z"])], ["x"], ["z"], funcs=[fproto], local=True)})
+    # C07-D6: a pattern variable bound to an interior matched value: graph.remove(safe=True) raises
+    out.append({"id": "C07-D6", "with_cond": False, "rules": [dict(base, name="r1", family="reemit",
+                pnodes=[("Abs", "", [("v", 1)], 1, []), ("Sub", "", [("v", 0), ("n", 0, 0)], 1, [])], root=1, pouts=[("n", 1, 0)],
+                tnodes=[("Abs", "", None, [("v", 1)], 1, []), ("Sub", "", None, [("v", 0), ("n", 0, 0)], 1, [])], touts=[("n", 1, 0)])],
+                "host": host([N("Abs", ["x"], ["a"]), N("Sub", ["a", "a"], ["z"])], ["x"], ["z"])})
     return out
 
 
